@@ -55,6 +55,7 @@ func (f PicklerFunc) Pickle(x starlark.Value) (module, name string, args starlar
 type Encoder struct {
 	w       writer
 	memo    map[starlark.Value]int
+	nextID  int // the number of MEMOIZE opcodes emitted so far, i.e. the size of the decoder's memo
 	pickler Pickler
 }
 
@@ -78,8 +79,11 @@ func (e *Encoder) memoized(x starlark.Value) (int, bool) {
 
 func (e *Encoder) memoize(x starlark.Value) {
 	if reflect.TypeOf(x).Comparable() {
-		id := len(e.memo)
-		e.memo[x] = id
+		// A value may be memoized more than once (a host pickler may cut a cycle by pickling an inner
+		// reference to x as a different object, which is memoized under x before x itself is complete), so
+		// IDs count MEMOIZE opcodes rather than distinct values.
+		e.memo[x] = e.nextID
+		e.nextID++
 
 		e.w.WriteByte(opMEMOIZE)
 	}
